@@ -46,7 +46,10 @@ func (resolver *referenceResolver) PackageForNode(source cueast.Node, defaultPac
 	case *cueast.SelectorExpr:
 		selector := source.(*cueast.SelectorExpr)
 
-		x := selector.X.(*cueast.Ident)
+		x, ok := selector.X.(*cueast.Ident)
+		if !ok {
+			return "", fmt.Errorf("can't resolve package: unsupported selector expression %T", selector.X)
+		}
 
 		return resolver.resolveImportAlias(x.Name), nil
 	case *cueast.Field:
@@ -56,7 +59,10 @@ func (resolver *referenceResolver) PackageForNode(source cueast.Node, defaultPac
 			return resolver.PackageForNode(field.Value, defaultPackage)
 		}
 
-		ident := field.Value.(*cueast.Ident)
+		ident, ok := field.Value.(*cueast.Ident)
+		if !ok {
+			return "", fmt.Errorf("can't resolve package: unsupported reference expression %T", field.Value)
+		}
 
 		if ident.Scope == nil {
 			return defaultPackage, nil
